@@ -160,6 +160,24 @@ Theorem c18_fetch_text_first_refuted :
 Proof. exact fetch_text_first_refuted. Qed.
 Print Assumptions c18_fetch_text_first_refuted.
 
+(* Wire format.  Payloads are ASCII-only text (json.dumps escapes every non-ASCII
+   character of keys and values; the driver checks this of every real payload), so
+   the channel does not depend on the encoding the script's stdout writes with nor
+   on the one the reader decodes with: for EVERY per-character substitution f that
+   leaves ASCII alone (any mix of ascii / latin-1 / cp1252 / utf-8 ..., mojibake
+   or replacement characters in the other output included) — provided the other
+   output is still tag-free after it — the transcoded stream parses to exactly the
+   payloads, also through LocalBackend's reading rule and at every cut position. *)
+Theorem c18_encoding_independent :
+  forall (f : Z -> list Z) (cs : list chunk) (n : nat),
+    ascii_preserving f -> payloads_ascii cs = true -> payloads_ok cs = true ->
+    noise_ok (map (transcode_chunk f) cs) = true ->
+    findall (transcode f (render cs)) = payloads_of cs /\
+    poll_model (transcode f (render cs)) = payloads_of cs /\
+    exists k, poll_model (firstn n (transcode f (render cs))) = firstn k (payloads_of cs).
+Proof. exact encoding_independent. Qed.
+Print Assumptions c18_encoding_independent.
+
 (* DESIGN's "rejected reports do not advance the counter" is FALSE of the code
    for reports rejected by serialisation: self.iter += 1 runs before
    _report_logger.  (The property itself only asks for strictly increasing.) *)
